@@ -36,7 +36,7 @@ RULE = (
     "multivariate, mixed; Brownian standard/geometric/fractional; Datasets), seeds incl. None, call sequences of length "
     "1..6 over {new, add_noise, sparsify, add_noise_and_sparsify}, n_obs 1..30, clusters 1..4, interleaved global draws; "
     "labels for n 0..30 x k 1..5; eigenvalue sequences n 1..12 (+ n<1); scripted-draw structure checks; grids regular / "
-    "perturbed; a case is non-trivial when at least one generator call was observed or a structure was compared; "
+    "perturbed; Brownian grids with float64 / int64 / int32 dtype and non-integer start values; a case is non-trivial when at least one generator call was observed or a structure was compared; "
     "distinct by content hash"
 )
 PARTIAL = [
@@ -203,7 +203,8 @@ def _do_call(sim, spec, call):
         if spec["kind"].startswith("kl"):
             sim.new(n_obs=call["n_obs"], n_clusters=call["n_clusters"], **({"clusters_std": call["cstd"]} if call.get("cstd") else {}))
         else:
-            sim.new(n_obs=call["n_obs"], argvals=np.linspace(0, 1, spec["m"]), **call.get("kw", {}))
+            grid = np.arange(spec["m"]) if spec.get("grid_int") else np.linspace(0, 1, spec["m"])
+            sim.new(n_obs=call["n_obs"], argvals=grid, **call.get("kw", {}))
     elif op == "noise":
         sim.add_noise(noise_variance=call["var"])
     elif op == "sparse":
@@ -219,7 +220,7 @@ def _do_call(sim, spec, call):
 def _gen_spec(rng: Rng):
     kind = rng.choice(["kl", "kl", "kl", "kl2d", "klmulti", "klmixed", "bms", "bmg", "bmf", "ds", "ds"])
     return dict(kind=kind, fam=rng.choice(KL_FAMILIES), fam2=rng.choice(["fourier", "legendre", "wiener"]),
-                K=rng.choice([1, 2, 3, 5]) if kind != "kl" else rng.choice([2, 3, 5]), m=rng.randint(4, 9))
+                K=rng.choice([1, 2, 3, 5]) if kind != "kl" else rng.choice([2, 3, 5]), m=rng.randint(4, 9), grid_int=rng.random() < 0.3)
 
 
 def _gen_calls(rng: Rng, spec, n_max):
@@ -248,7 +249,8 @@ def gen_cases(rng: Rng, tier):
     nt, nl, ne, nk, nb, ng = dict(quick=(140, 60, 40, 60, 50, 30), thorough=(1500, 155, 100, 600, 500, 200))[tier]
     for _ in range(nt):
         spec = _gen_spec(rng)
-        seed = rng.choice([None, rng.randint(0, 2**31 - 1), rng.randint(0, 2**31 - 1), rng.randint(0, 50), rng.randint(0, 50)])
+        # boundary seeds are drawn explicitly: 0 (falsy), 1, the largest 32-bit value
+        seed = rng.choice([None, rng.randint(0, 2**31 - 1), rng.randint(0, 2**31 - 1), rng.randint(0, 50), 0, 0, 1, 2**32 - 1])
         yield dict(kind="twin", spec=spec, seed=seed, gseed=rng.randint(0, 10**6), calls=_gen_calls(rng, spec, 6 if tier == "thorough" else 5))
     pairs = [(n, k) for n in range(0, 31) for k in range(1, 6)]
     if tier == "quick":
@@ -284,6 +286,7 @@ def gen_cases(rng: Rng, tier):
         c = dict(kind="bm", name=name, m=m, t0=rs(rng.choice([0, -1, 2])), span=rs(span), n_obs=n_obs, seeded=rng.random() < 0.7,
                  init=rs(rng.choice([Fraction(0), Fraction(1), Fraction(-3, 2), Fraction(5, 2), Fraction(1, 4)])),
                  default_init=rng.random() < 0.25,
+                 gdtype=rng.choice(["float64", "float64", "int64", "int64", "int32"]), istart=rng.choice([0, -3, 10]), istep=rng.choice([1, 2, 5]),
                  Z=[[rs(x) for x in rng.dyadics(m, -3, 3, 3)] for _ in range(n_obs)])
         if name == "geometric":
             c["mu"] = float(rng.choice([0.0, 0.5, -1.0]))
@@ -486,7 +489,12 @@ def _impl_bm(case):
 
     name, m = case["name"], case["m"]
     t0, span = float(F(case["t0"])), float(F(case["span"]))
-    t = t0 + span * np.arange(m) / max(m - 1, 1)
+    gd = case.get("gdtype", "float64")
+    if gd == "float64":
+        t = t0 + span * np.arange(m) / max(m - 1, 1)
+    else:
+        # a regular grid given with an integer dtype (np.arange(start, stop, step))
+        t = (int(case["istart"]) + int(case["istep"]) * np.arange(m)).astype(gd)
     sim = Brownian(name=name, random_state=5 if case["seeded"] else None)
     stub = _ScriptNormal(case["Z"])
     kw = {}
@@ -930,7 +938,7 @@ def classify(case, impl):
     elif case["kind"] == "kl":
         tags += ["shape:" + case["spec"]["kind"], "fam:" + case["spec"]["fam"], "opt:" + case["opt"], "clusters:" + str(case["n_clusters"])]
     elif case["kind"] == "bm":
-        tags += ["bm:" + case["name"], "status:" + impl["status"].split(":")[0]]
+        tags += ["bm:" + case["name"], "status:" + impl["status"].split(":")[0], "grid_dtype:" + case.get("gdtype", "float64")]
     elif case["kind"] == "grid":
         tags += ["grid:" + case["mode"], "status:" + impl["status"].split(":")[0]]
     elif case["kind"] == "eig":
